@@ -808,7 +808,6 @@ func ruleTxThrough(c *core.Ctx, rule string, fn *ssa.Function) int {
 	return n
 }
 
-
 // ruleTxErr: no error of an SQL write inside a tx scope is dropped. On the err != nil edge of every write in the cone,
 // every path returns an error derived from it; the single accepted exception is the duplicate-row idiom on the
 // content-addressed rht table: SQLite extended code 1555 (SQLITE_CONSTRAINT_PRIMARYKEY) of that very error.
